@@ -897,11 +897,11 @@ def replay(case):
     preload()
     p = unjson(case["params"])
     import signal
-    signal.signal(signal.SIGALRM, signal.SIG_DFL)
-    signal.setitimer(signal.ITIMER_REAL, CASE_TIMEOUT)
+    signal.signal(signal.SIGPROF, signal.SIG_DFL)
+    signal.setitimer(signal.ITIMER_PROF, CASE_TIMEOUT)
     try:
         ENTRIES[case["entry"]].run(p)
     except Exception:
         pass
-    signal.setitimer(signal.ITIMER_REAL, 0)
+    signal.setitimer(signal.ITIMER_PROF, 0)
     return []
